@@ -1,7 +1,7 @@
 """Per-property configuration of ./check: Lean obligations, tie theorems, correspondence legs."""
 
 PROPS = {}
-HOOK_COMMITS = []          # /repo commits that add `verif`-tagged hooks
+HOOK_COMMITS = ["1bd059d", "b048242", "43b5979"]          # /repo commits that add `verif`-tagged hooks
 NOT_APPLICABLE = {}        # property id -> reason (only for properties without a check)
 
 COMMON_NOTE = ("Trusted: Lean 4.33.0 kernel (axioms propext, Classical.choice, Quot.sound only, audited on every run); the hand-written "
@@ -53,4 +53,52 @@ PROPS["C15"] = {
                   "invariant for all action sequences; tied to the code by differential execution of generated programs.",
     "level_note": COMMON_NOTE + "http.ResponseWriter contract modelled after httptest.ResponseRecorder.",
     "design_ref": "DESIGN.md section 5, C15",
+}
+
+PROPS["C13"] = {
+    "lean_modules": ["GoSup.Props.C13"],
+    "theorems": [],
+    "ties": [],
+    "legs": [{"name": "equal", "cmd": "equal"}],
+    "rule": "pairs (active, new) of configurations: a seeded base configuration (1-4 routes, names incl. ones with spaces, "
+            "mux-style paths) and 1-3 mutations drawn from {addr, each timeout, one name, one path, order, swap two names, add, drop} "
+            "or an independent configuration, both argument orders; Config.Equal vs the model, and Spec.C13.holdsEqual on the "
+            "result. Non-trivial = at least one mutation; distinct by the encoded pair.",
+    "assumptions": [],
+    "trusted_base": [],
+    "level_text": "Theorems: Config.Equal model decides exactly 'same address, timeouts and route (name,path) set' on "
+                  "configurations with pairwise distinct paths, for route lists of any length; reload model restarts iff not Equal.",
+    "level_note": COMMON_NOTE,
+    "design_ref": "DESIGN.md section 5, C13",
+}
+
+PROPS["C11"] = {
+    "lean_modules": ["GoSup.Props.C11"],
+    "theorems": [],
+    "ties": [],
+    "legs": [{"name": "member", "cmd": "member"}],
+    "rule": "hasMembershipChanged (through the verif export) on ALL pairs of identity lists up to length 2 (quick) / 3 (thorough) "
+            "over a 4-name pool, plus seeded random lists (length 0-6, duplicates, permutations); vs the model and "
+            "Spec.C11.holdsMember. Non-trivial = not both empty; distinct by the pair.",
+    "assumptions": [],
+    "trusted_base": [],
+    "level_text": "Theorems about the membership decision for identity lists of any length; composite reload model.",
+    "level_note": COMMON_NOTE,
+    "design_ref": "DESIGN.md section 5, C11",
+}
+
+PROPS["C16"] = {
+    "lean_modules": ["GoSup.Props.C16"],
+    "theorems": [],
+    "ties": [],
+    "legs": [{"name": "planner", "cmd": "planner"}],
+    "rule": "planner (newEntries/buildPendingEntries/getPendingActions/commit through the verif export) on seeded (current, desired) "
+            "pairs over an id pool containing a, a:stop, a:stop:stop, b:stop, the empty id, prefixes and suffixes; nil configs; "
+            "result compared with the model (for clashing ids: membership in the set of model results over all iteration orders) "
+            "and Spec.C16.planOk. Non-trivial = the plan starts or stops something; distinct by (current, desired).",
+    "assumptions": [],
+    "trusted_base": [],
+    "level_text": "Theorems about the diff planner over finite maps of any size under the NoClash precondition; cluster model.",
+    "level_note": COMMON_NOTE,
+    "design_ref": "DESIGN.md section 5, C16",
 }
